@@ -225,7 +225,7 @@ v("C14", "props-from-data-flag", LD, "    elif include_drf_properties:\n        
 v("C14", "merge-sort-deleted", LD, "                    dec_files = dec_prior_files\n                    dec_files.sort()\n", "                    dec_files = dec_prior_files\n", rules=["C14.R3"])
 v("C14", "listdir-unguarded", LD, "        try:\n            subdir_files = os.listdir(os.path.join(root, subdir))\n        except OSError:\n            # directory failed to list (e.g. doesn't exist anymore), skip\n            continue\n",
   "        subdir_files = os.listdir(os.path.join(root, subdir))\n", rules=["C14.R4"])
-v("C14", "empty-guard-removed", LD, "            and (not dec_files or dec_files[0][0] > starttime)", "            and dec_files[0][0] > starttime", rules=["C14.R4"])
+v("C14", "empty-guard-removed", LD, "            and (not dec_files or dec_files[0][0] >= starttime)", "            and dec_files[0][0] >= starttime", rules=["C14.R4"])
 _C14_LOOP = """    enum_subdirs = list(enumerate(dec_subdirs[subdir_slice]))
     for k, (_time, subdir) in enum_subdirs if not reverse else reversed(enum_subdirs):
 """
@@ -277,6 +277,10 @@ v("C18", "reverse-dest-renamed", LD, '        "-R",\n        "--reverse",\n     
   '        "-R",\n        "--reverse",\n        dest="rev",\n        action="store_true",\n        help="""Traverse directories and include', rules=["C18.R2"])
 v("C18", "nodmd-stores-true", LD, '        "--nodmd",\n        dest="include_dmd",\n        action="store_false",', '        "--nodmd",\n        dest="include_dmd",\n        action="store_true",', rules=["C18.R2"])
 v("C18", "mv-runs-cp", LD, "    parser.set_defaults(func=_run_mv)", "    parser.set_defaults(func=_run_cp)", rules=["C18.R3"])
+v("C18", "channels-never-collapsed", LD, "        if (src, dest) in args.srcdests:\n            continue\n        if args.recursive and any(_is_below(src, other) for other, _ in srcdests):\n            continue\n", "", rules=["C18.R4"])
+v("C18", "twin-below-by-sep", LD, '    return path.startswith(os.path.join(top, ""))', "    return path.startswith(top + os.sep)", expect="silent")
+v("C01", "complex-cast-type-native", RF, "                    ).newbyteorder(self.realdtype.byteorder)\n", "                    )\n", rules=["C01.R7"])
+v("C01", "twin-complex-cast-type-via-byteorder-attr", RF, "                    ).newbyteorder(self.realdtype.byteorder)\n", "                    ).newbyteorder(self.structdtype[\"r\"].byteorder)\n", expect="analysis-error")
 v("C19", "gap-from-requested-index", RF, "        gap_size = (next_avail_sample - self._next_avail_sample) - nwritten", "        gap_size = next_sample - self._next_avail_sample", rules=["C19.R2"])
 v("C19", "gap-without-nwritten", RF, "        gap_size = (next_avail_sample - self._next_avail_sample) - nwritten", "        gap_size = next_avail_sample - self._next_avail_sample", rules=["C19.R2"])
 v("C19", "returns-prestate", RF, "        self._total_gap_samples += gap_size\n        self._next_avail_sample = next_avail_sample\n\n        return next_avail_sample\n",
@@ -292,6 +296,18 @@ v("C12", "twin-sorted-key-int", DM, "                    groups.sort(key=int)\n 
 v("C08", "twin-comment-and-format", RF, "        key, z = data_dict.popitem()\n", "        key, z = data_dict.popitem()  # the single contiguous block\n", expect="silent")
 v("C02", "twin-reformatted-c", LIB, "\tif( access( finished_fullname, F_OK ) != -1 )\n", "\tif (access(finished_fullname, F_OK) != -1)\n", expect="silent")
 v("C14", "twin-drop-after-sort", LD, "        dec_files.sort()\n        if (\n            (k == 0)", "        dec_files.sort()\n        if len(dec_files) > 100000:\n            dec_files = dec_files[:]\n        if (\n            (k == 0)", expect="silent")
+v("C14", "end-steps-over-one-entry", LD, "        while ke < len(dec_list) and dec_list[ke][0] == endtime:", "        if ke < len(dec_list) and dec_list[ke][0] == endtime:", rules=["C14.R7"])
+v("C14", "end-exclusive", LD, "        while ke < len(dec_list) and dec_list[ke][0] == endtime:\n            ke = ke + 1\n", "", rules=["C14.R7"])
+v("C14", "twin-end-loop-augassign", LD, "        while ke < len(dec_list) and dec_list[ke][0] == endtime:\n            ke = ke + 1\n", "        while ke < len(dec_list) and endtime == dec_list[ke][0]:\n            ke += 1\n", expect="silent")
+v("C14", "ffill-not-at-start", LD, "        if ffill:\n            ks = max(ks - 1, 0)", "        if ffill and (ks == len(dec_list) or dec_list[ks][0] > starttime):\n            ks = max(ks - 1, 0)", rules=["C14.R8"])
+v("C14", "twin-ffill-guarded-step", LD, "        if ffill:\n            ks = max(ks - 1, 0)", "        if ffill and ks > 0:\n            ks -= 1", expect="silent")
+v("C14", "lookback-not-at-start", LD, "            and (not dec_files or dec_files[0][0] >= starttime)", "            and (not dec_files or dec_files[0][0] > starttime)", rules=["C14.R8"])
+v("C14", "twin-lookback-operands-swapped", LD, "            and (not dec_files or dec_files[0][0] >= starttime)", "            and (not dec_files or not starttime > dec_files[0][0])", expect="silent")
+v("C14", "channel-listdir-unguarded", LD, "            try:\n                any_props = [f for f in os.listdir(root) if _RE_PROPFILE.match(f)]\n            except OSError:\n                # channel directory failed to list (e.g. doesn't exist anymore)\n                any_props = []\n",
+  "            any_props = [f for f in os.listdir(root) if _RE_PROPFILE.match(f)]\n", rules=["C14.R4"])
+v("C14", "file-time-overflow-unguarded", LD, "            except OverflowError:\n                # name fits the pattern but its number is not a time, skip\n                continue\n",
+  "            except KeyError:\n                continue\n", rules=["C14.R9"])
+v("C14", "subdir-date-handler-reraises", LD, "                others.append(d)\n                continue\n            time = dt - util.epoch", "                raise\n            time = dt - util.epoch", rules=["C14.R9"])
 v("C14", "twin-sort-call-style", LD, "    dec_subdirs.sort()\n    subdir_slice", "    dec_subdirs.sort()  # ascending time\n    subdir_slice", expect="silent")
 
 
